@@ -664,9 +664,10 @@ impl LayerGroup {
 
         let old_pos = cursor.position();
 
-        let mut layer_offsets = vec![0i32; chunk_header.layer_count as usize];
-        for i in 0..chunk_header.layer_count {
-            layer_offsets[i as usize] = cursor.read_le::<i32>().ok()?;
+        // the counts come from the file, so collect what is actually there instead of allocating them up front
+        let mut layer_offsets = Vec::new();
+        for _ in 0..chunk_header.layer_count {
+            layer_offsets.push(cursor.read_le::<i32>().ok()?);
         }
 
         let mut layers = Vec::new();
@@ -687,9 +688,9 @@ impl LayerGroup {
             let mut objects = Vec::new();
             // read instance objects
             {
-                let mut instance_offsets = vec![0i32; header.instance_object_count as usize];
-                for i in 0..header.instance_object_count {
-                    instance_offsets[i as usize] = cursor.read_le::<i32>().ok()?;
+                let mut instance_offsets = Vec::new();
+                for _ in 0..header.instance_object_count {
+                    instance_offsets.push(cursor.read_le::<i32>().ok()?);
                 }
 
                 for i in 0..header.instance_object_count {
